@@ -3,6 +3,8 @@ import CogentModel.Proofs.CalcInv
 import CogentModel.Proofs.CalcReach
 import CogentModel.Model.Controller
 import CogentModel.Proofs.CtlInv
+import CogentModel.Model.ParamRules
+import CogentModel.Proofs.ParamRules
 /-! # C07 — incrementally recalculated values equal a fresh calculation (property theorems)
 
 `Model/Calculator.lean` mirrors `Calculator.change` (two buffers, `_switch`, `last_values`,
@@ -306,5 +308,61 @@ example :
   decide
 
 end controller
+
+/-! ## rule export / import (`get_param_rules` → `apply_param_rules`) for one scalar parameter -/
+section rules
+open CogentModel.Rules
+
+/-- a history of `set_param_rule` calls on one parameter; calls that raise leave the state as it was -/
+def runRules (d : Rules.Defn) : Rules.St → List RuleArgs → Rules.St
+  | s, [] => s
+  | s, r :: rs =>
+    match setRule d s r with
+    | .ok s' => runRules d s' rs
+    | .error _ => runRules d s rs
+
+/-- **rules_roundtrip**: for every parameter definition (any number of edges, any class defaults
+`lower ≤ default ≤ upper`, `independent_by_default` or not) and after EVERY history of
+`set_param_rule` calls (any scopes, constant / free, values, bounds, independent or not, failing
+calls included), exporting the rules and applying them in order to a newly built function
+succeeds and gives every edge the same setting (value, constness, bounds), the same sharing of
+setting objects between edges, and the same number of free parameters. -/
+theorem rules_roundtrip (d : Rules.Defn) (hd : d.dLo ≤ d.dVal ∧ d.dVal ≤ d.dHi) (hist : List RuleArgs) :
+    ∃ s', applyRules d (Rules.fresh d) (exportRules d (runRules d (Rules.fresh d) hist)) = .ok s' ∧
+      (∀ e, e < d.nEdges → s'.setting e = (runRules d (Rules.fresh d) hist).setting e) ∧
+      (∀ e1 e2, e1 < d.nEdges → e2 < d.nEdges →
+        (s'.asg e1 = s'.asg e2 ↔ (runRules d (Rules.fresh d) hist).asg e1 = (runRules d (Rules.fresh d) hist).asg e2)) ∧
+      Rules.nfp d s' = Rules.nfp d (runRules d (Rules.fresh d) hist) := by
+  have hI : Inv2 d (runRules d (Rules.fresh d) hist) := by
+    have h0 := fresh_inv d hd
+    generalize Rules.fresh d = s0 at h0
+    induction hist generalizing s0 with
+    | nil => exact h0
+    | cons r rs ih =>
+      simp only [runRules]
+      cases hs : setRule d s0 r with
+      | ok s1 => exact ih s1 (setRule_inv d s0 s1 r hs h0)
+      | error e => exact ih s0 h0
+  exact roundtrip d _ hI.2
+
+/-- non-vacuity: 4 edges, lengths-like parameter (independent by default): an edge subset made one
+shared constant, another edge re-bounded and clamped, a failing call in between; the export has
+three rules and re-importing reproduces 2 free parameters -/
+def exD : Rules.Defn := { nEdges := 4, dLo := 0, dVal := 1, dHi := 10, indepDefault := true }
+def exRules : List RuleArgs :=
+  [ { edges := some [0, 2], isIndependent := some false, isConstant := true, value := some 2, init := none, lower := none, upper := none },
+    { edges := some [1], isIndependent := none, isConstant := true, value := none, init := some 3, lower := none, upper := none },
+    { edges := some [1], isIndependent := none, isConstant := false, value := none, init := some 7, lower := some 1, upper := some 4 } ]
+example : (exportRules exD (runRules exD (Rules.fresh exD) exRules)).length = 3 ∧
+    Rules.nfp exD (runRules exD (Rules.fresh exD) exRules) = 2 ∧
+    (runRules exD (Rules.fresh exD) exRules).setting 1 = .var 1 4 4 ∧
+    (runRules exD (Rules.fresh exD) exRules).setting 2 = .const 2 := by decide
+example : exD.dLo ≤ exD.dVal ∧ exD.dVal ≤ exD.dHi := by decide
+
+/- NOT covered by rules_roundtrip (exercised by the likelihood-function differential only): that equal
+settings on every edge give an equal log-likelihood (that is C02), non-scalar parameters (motif
+probabilities, which exports floor at 1e-6 by design), bin / locus dimensions, and the interaction
+of several parameters (rules of different parameters touch disjoint definitions). -/
+end rules
 
 end CogentModel.C07
